@@ -30,6 +30,9 @@ PRESETS = ["commonmark", "js-default", "zero", "default"]
 PROBES = [
     "# h *e*\n\n- a\n- b\n\n> q `c` [r] [x]\n\n[r]: /u\n",
     "[x] ![i](s) \"q\" -- ...\n\n```py\nf\n```\n\na|b\n-|-\n1|2\n",
+    # link labels whose scan (parseLinkLabel -> skipToken) has to step over every inline construct that can hold a ']'
+    "[a `]` b](x) [c \\] d](y) [e <i t=\"]\"> f](z) [g <http://h/]> i](w) [j ![k]](l) m](n) [*o]* p](q) [~~r]~~](s)\n",
+    "[" * 7 + "x" + "](u)" * 7 + " " + "![" * 5 + "y" + "](v)" * 5 + "\n",
 ]
 OPT_CHOICES = [
     ("html", [True, False]), ("typographer", [True, False]), ("breaks", [True, False]), ("xhtmlOut", [True, False]),
@@ -247,6 +250,26 @@ def probe_vs_fresh(ctx: Ctx, insts, toks):
                 ctx.fail("history-dependent", "probe parse on a used instance differs from a fresh identically configured instance",
                          {"request": "world " + " ".join(toks), "instance": i, "input": p})
                 return
+        # nesting probes around the configured limit (a counter that survives a call shows here first)
+        mn = md.options.get("maxNesting", 100)
+        for k in sorted({max(1, mn - 2), max(1, mn - 1), mn, mn + 1, max(1, mn // 2)}):
+            p = "[" * k + "a" + "]" * k + "(u)\n\n" + "> " * min(k, 60) + "b\n"
+            try:
+                a, b = md.render(p), fresh.render(p)
+            except Exception:
+                continue
+            if a != b:
+                ctx.fail("history-dependent", "nesting probe on a used instance differs from a fresh identically configured instance",
+                         {"request": "world " + " ".join(toks), "instance": i, "input": p, "used": a[:200], "fresh": b[:200]})
+                return
+        # tie: everything the two instances hold is equal (the model's instance has no other state)
+        from .statesnap import deep_state, diff
+        d = diff(deep_state(md), deep_state(fresh))
+        ctx.corr_compared += 1
+        if d:
+            ctx.mismatch("a used instance holds state that a fresh identically configured instance does not (hidden state outside "
+                         "the model's configuration)", {"request": "world " + " ".join(toks), "instance": i, "differences": d})
+            return
 
 
 def run(ctx: Ctx) -> None:
